@@ -235,6 +235,16 @@ func createCompiledRouteHandler(route *ast.Route, bytecode []byte, wsHub *websoc
 			return json.NewEncoder(ctx.ResponseWriter).Encode(body)
 		}
 
+		// Validate the result against the declared return type, as the
+		// interpreter does for a plain (status-less) return.
+		if route.ReturnType != nil {
+			checker := interpreter.NewTypeChecker()
+			checker.SetTypeDefs(compiledTypeDefs)
+			if err := checker.CheckType(vm.ToInterface(result), route.ReturnType); err != nil {
+				return writeInternalError(ctx, fmt.Errorf("return type mismatch in route %s %s: %v", route.Method, route.Path, err))
+			}
+		}
+
 		// Set response
 		ctx.StatusCode = http.StatusOK
 		ctx.ResponseWriter.Header().Set("Content-Type", "application/json")
